@@ -108,6 +108,10 @@ impl SimNode {
     }
 
     pub async fn with_config(idx: usize, dir: PathBuf, conf: Config) -> SimResult<Self> {
+        Self::with_config_schema(idx, dir, conf, Some(SCHEMA)).await
+    }
+
+    pub async fn with_config_schema(idx: usize, dir: PathBuf, conf: Config, schema: Option<&str>) -> SimResult<Self> {
         std::fs::create_dir_all(&dir)?;
         let (tripwire, tw_worker, tw_tx) = Tripwire::new_simple();
         let (agent, opts) = setup(conf, tripwire).await.map_err(|e| SimErr(format!("setup: {e}")))?;
@@ -139,9 +143,11 @@ impl SimNode {
         }
         let (clear_tx, clear_rx) = bounded(1024, "sim_clear");
         tokio::spawn(clear_buffered_meta_loop(agent.clone(), clear_rx));
-        let (status, body) = api_v1_db_schema(Extension(agent.clone()), axum::Json(vec![SCHEMA.to_string()])).await;
-        if status != hyper::StatusCode::OK {
-            return Err(SimErr(format!("schema: {status} {:?}", body.0)));
+        if let Some(schema) = schema {
+            let (status, body) = api_v1_db_schema(Extension(agent.clone()), axum::Json(vec![schema.to_string()])).await;
+            if status != hyper::StatusCode::OK {
+                return Err(SimErr(format!("schema: {status} {:?}", body.0)));
+            }
         }
         let keep: Box<dyn std::any::Any + Send> = Box::new((
             gossip_server_endpoint,
@@ -180,7 +186,11 @@ impl SimNode {
     /// bookkeeping reload that `run_root::run` performs is replicated here (the real reload path is
     /// checked separately through `start_with_config`, see C06).
     pub async fn reopen(idx: usize, dir: PathBuf) -> SimResult<Self> {
-        let mut node = Self::with_config(idx, dir.clone(), node_config(&dir)).await?;
+        Self::reopen_schema(idx, dir, Some(SCHEMA)).await
+    }
+
+    pub async fn reopen_schema(idx: usize, dir: PathBuf, schema: Option<&str>) -> SimResult<Self> {
+        let mut node = Self::with_config_schema(idx, dir.clone(), node_config(&dir), schema).await?;
         let actors: Vec<ActorId> = {
             let conn = node.agent.pool().read().await?;
             tokio::task::block_in_place(|| {
